@@ -60,6 +60,9 @@ type Oblig struct {
 	Hinted     bool
 	hintText   string // assumption slice named by a hint (built before the parallel phase)
 	hintName   string
+	HasUses    bool     // the clause names the loop invariants its proof needs (uses(...))
+	Uses       []string // those names (the clause's own name first)
+	usesText   string
 }
 
 type VC struct {
@@ -80,6 +83,10 @@ type VC struct {
 	nowLast *Term
 	failed  string // unsupported reason
 	internalSeen map[string]int // internal clause name -> number of exits it was checked at
+	tagNames   []string // parallel to assumes: name of the loop invariant an 'I' assumption comes from
+	tagName    string
+	curHasUses bool
+	curUses    []string
 	ghostVars map[string]*Term
 	accessed  map[string]bool
 	noLoadFacts bool
@@ -113,6 +120,7 @@ func (vc *VC) assume(st *State, fact *Term) {
 	}
 	vc.assumes = append(vc.assumes, mkImplies(st.reach, fact))
 	vc.tags = append(vc.tags, vc.tag)
+	vc.tagNames = append(vc.tagNames, vc.tagName)
 }
 
 func (vc *VC) assumeGlobal(fact *Term) {
@@ -121,6 +129,7 @@ func (vc *VC) assumeGlobal(fact *Term) {
 	}
 	vc.assumes = append(vc.assumes, fact)
 	vc.tags = append(vc.tags, vc.tag)
+	vc.tagNames = append(vc.tagNames, vc.tagName)
 }
 
 // withTag marks the provenance of the assumptions made until the returned function is called:
@@ -157,19 +166,29 @@ func (vc *VC) oblige(st *State, kind, name, pos, desc string, goal *Term, props 
 	if len(props) == 0 {
 		props = vc.props
 	}
+	if !vc.curHasUses && vc.fc != nil {
+		for _, h := range vc.fc.Hints {
+			if h.Pat.MatchString(id) {
+				vc.curHasUses, vc.curUses = true, h.Uses
+				defer func() { vc.curHasUses, vc.curUses = false, nil }()
+				break
+			}
+		}
+	}
 	// contract clauses that are conjunctions are discharged conjunct by conjunct (smaller, more stable queries;
 	// the failing conjunct is named in the report)
 	if kind == "ensures" || kind == "invariant" || kind == "requires" {
 		if parts := splitGoal(goal); len(parts) > 1 {
 			for i, g := range parts {
 				vc.obligs = append(vc.obligs, &Oblig{ID: fmt.Sprintf("%s/%d", id, i+1), Kind: kind, Func: vc.root.String(), Pos: pos, Props: props,
-					Desc: fmt.Sprintf("%s (conjunct %d of %d)", desc, i+1, len(parts)), Reach: st.reach, Goal: g, NAssume: len(vc.assumes), vc: vc})
+					Desc: fmt.Sprintf("%s (conjunct %d of %d)", desc, i+1, len(parts)), Reach: st.reach, Goal: g, NAssume: len(vc.assumes), vc: vc,
+					HasUses: vc.curHasUses, Uses: vc.curUses})
 			}
 			return
 		}
 	}
 	vc.obligs = append(vc.obligs, &Oblig{ID: id, Kind: kind, Func: vc.root.String(), Pos: pos, Props: props, Desc: desc,
-		Reach: st.reach, Goal: goal, NAssume: len(vc.assumes), vc: vc})
+		Reach: st.reach, Goal: goal, NAssume: len(vc.assumes), vc: vc, HasUses: vc.curHasUses, Uses: vc.curUses})
 }
 
 // splitGoal distributes a goal over conjunctions: A && B, forall x :: (G ==> A && B), G ==> (A && B).
@@ -1060,7 +1079,9 @@ func (fr *Frame) enterLoop(h *ssa.BasicBlock, in *State) *State {
 		for _, c := range spec.Invariants {
 			g := vc.evalClause(fr, c, cur, vc.entry, nil)
 			untag := vc.withTag('I')
+			vc.tagName = c.Name
 			vc.assume(cur, g)
+			vc.tagName = ""
 			untag()
 		}
 		if spec.Decreases != nil {
@@ -1097,7 +1118,9 @@ func (fr *Frame) closeLoop(h, from *ssa.BasicBlock, st *State, cond *Term) {
 	if spec != nil {
 		for _, c := range spec.Invariants {
 			g := vc.evalClause(fr, c, s2, vc.entry, nil)
+			vc.curHasUses, vc.curUses = c.HasUses, append([]string{c.Name}, c.Uses...)
 			vc.oblige(s2, "invariant", fr.name(fmt.Sprintf("loop%d.%s@back", ord, c.Name)), vc.pos(from.Instrs[len(from.Instrs)-1].Pos()), "loop invariant preserved: "+c.Src, g, c.Props)
+			vc.curHasUses, vc.curUses = false, nil
 		}
 		if spec.Decreases != nil {
 			lc := fr.loopEntry[h]
